@@ -18,6 +18,7 @@ func init() {
 			ruleB5(c)
 			ruleB6(c)
 			ruleB7(c)
+			ruleB5echo(c)
 			ruleS2S3(c)
 		},
 		explanation: "Decides the structure of split synchronization: every slice expression of the sender's chunk walk is proved in bounds by an inductive argument over the retry/advance loop (n <= len(list) holds on every edge into the loop head, including the edge that carries the recalculated chunk sizes); each list's chunk upper bound and advance lower bound are the same value and the 'more' flag is exactly 'something is left of either list' for those bounds; a non-final chunk whose reply carries updates or a different 'more' fails the sync before the lists are advanced; a plugin whose synchronization fails is never activated (both activation sites); the receiver appends both lists to the stored ones in order under the stub lock, takes-and-clears the stored request, calls the handler exactly once with the concatenation and wires its results to the response. The chunk walk ends on the sender's own More flag, never on the reply's. A per-message count that the retry scales down to zero is raised to one while its list is non-empty, so every accepted non-final chunk advances every non-empty list.",
@@ -243,6 +244,31 @@ func ruleB3(c *Ctx) {
 		pos = updT.Pos()
 	}
 	c.ok("B3", "synchronize/split-reply", pos, bad == "", "a plugin that does not handle split sync requests fails the synchronization", bad)
+	// a failed synchronization leaves a closed plugin behind: whether the plugin becomes active is decided by what
+	// the runtime's sync callback returns, which may swallow this function's error — a plugin that is still open then
+	// is activated without a snapshot
+	closeM := m.method(pkgAdapt, "plugin", "close")
+	nFail := 0
+	for _, r := range returnsOf(f) {
+		fails := false
+		for _, v := range returnValues(r, 1) {
+			if !isNilConst(v) {
+				fails = true
+			}
+		}
+		if !fails {
+			continue
+		}
+		nFail++
+		closed := false
+		for _, ci := range m.callsTo(f, closeM) {
+			if ci.Common().Args[0] == ssa.Value(f.Params[0]) && domInstr(ci, r) {
+				closed = true
+			}
+		}
+		c.ok("B3", fmt.Sprintf("synchronize/fail-closes#%d", nFail), r.Pos(), closed, "a failing synchronization closes the plugin before it returns the error",
+			"this failing return is not preceded by p.close(): a runtime whose sync callback does not pass the error on activates a plugin that never received its snapshot (closed plugins are dropped from the list, open ones are not)")
+	}
 	// the walk ends on the sender's own More flag, never on what the plugin replied
 	isReplyRoot := func(root ssa.Value, at ssa.Instruction) bool {
 		for _, src := range valueSources(root, at, 0) {
@@ -666,5 +692,44 @@ func ruleB7(c *Ctx) {
 		}
 		c.ok("B7", "progress/"+name, rcall.Pos(), okS || okR, "a "+name+" count scaled down to zero is raised to at least one while "+name+" remain",
 			"the recomputed per-message count of "+name+" is int(count*factor) and can be 0 (for example 3 pods next to thousands of large containers: factor < 1/3); nothing raises it again, so the "+name+" are never sent: every later chunk carries none of them, More stays true, and once the other list is exhausted the walk sends empty messages until the request timeout and the registration fails — the state is not delivered although it is transmissible")
+	}
+}
+
+// ruleB5echo: a non-final chunk is acknowledged with the sender's own More flag.
+func ruleB5echo(c *Ctx) {
+	m := c.M
+	sy := m.method(pkgStub, "stub", "Synchronize")
+	cs := m.method(pkgStub, "stub", "collectSync")
+	n := 0
+	for _, f := range []*ssa.Function{sy, cs} {
+		req := f.Params[len(f.Params)-1]
+		// the responses built here: composite literals of SynchronizeResponse
+		built := 0
+		var pos token.Pos
+		for _, b := range f.Blocks {
+			for _, in := range b.Instrs {
+				if al, ok := in.(*ssa.Alloc); ok {
+					if n := ptrNamed(al.Type()); n != nil && n.Obj().Name() == "SynchronizeResponse" {
+						built++
+						pos = al.Pos()
+					}
+				}
+			}
+		}
+		if built == 0 {
+			continue
+		}
+		n += built
+		echoed := 0
+		for _, fl := range m.fieldFlows(f) {
+			if _, isAlloc := fl.Root.(*ssa.Alloc); isAlloc && fl.Path == "More" && fl.Src.Root == ssa.Value(req) && fl.Src.PathString() == "More" {
+				echoed++
+			}
+		}
+		c.ok("B5", f.Name()+"/echo-more", pos, echoed == built, f.Name()+" answers a chunk with the request's own More flag",
+			fmt.Sprintf("%d of the %d responses built here do not carry the request's More flag: the runtime compares the two after every non-final chunk, so a plugin answering this way (for instance one without a Synchronize handler) is rejected exactly when the state has to be split", built-echoed, built))
+	}
+	if n == 0 {
+		c.violate("B5", "echo-more", sy.Pos(), "the stub acknowledges chunks", "no response is built in Synchronize / collectSync")
 	}
 }
